@@ -1225,6 +1225,14 @@ class Interp:
                 return fn(a, b)
             except Exception as ex:
                 raise PyRaise(type(ex))
+        if isinstance(a, SOpt) or isinstance(b, SOpt):
+            # an optional operand: its None-ness is a decision of the path (None then fails like in Python)
+            from .models import resolve_opt
+            a = resolve_opt(self.ctx, a) if isinstance(a, SOpt) else a
+            b = resolve_opt(self.ctx, b) if isinstance(b, SOpt) else b
+            if a is None or b is None:
+                raise PyRaise(TypeError, "unsupported operand type(s): NoneType")
+            return self.binop(op, a, b)
         if type(a).__name__ == "SByteArray" and isinstance(op, ast.Add) and isinstance(b, (SBytes, bytes)):
             return type(a)(tuple(a.segs) + tuple(as_bytes(b)))
         if isinstance(a, SBytes) or isinstance(b, SBytes):
